@@ -336,7 +336,7 @@ impl World {
                 let r = match ex {
                     Err(e) => Answer { error: Some(format!("initiate: {:?}", e.code())), ..Default::default() },
                     Ok(mut ex) if !s.subscribe => imdrv::do_read(&mut ex, &imdrv::read_request_ev(&s.attr_paths, &s.paths, s.event_min, s.fabric_filtered)).await,
-                    Ok(mut ex) => do_subscribe(&mut ex, &imdrv::subscribe_request_ev(0, 30, &s.attr_paths, &s.paths, s.event_min, s.fabric_filtered)).await,
+                    Ok(mut ex) => imdrv::do_subscribe(&mut ex, &imdrv::subscribe_request_ev(0, 30, &s.attr_paths, &s.paths, s.event_min, s.fabric_filtered)).await,
                 };
                 *ans.borrow_mut() = Some(r);
                 core::future::pending::<()>().await
@@ -365,56 +365,6 @@ impl World {
         }
         Err("harness: the events world does not become quiet".into())
     }
-}
-
-/// SubscribeRequest; collects the priming chunks and the SubscribeResponse.
-async fn do_subscribe(ex: &mut Exchange<'_>, req: &[u8]) -> Answer {
-    let mut ans = Answer::default();
-    let r: Result<(), Error> = async {
-        ex.send(MessageMeta::new(imdrv::PROTO_IM, imdrv::OP_SUBSCRIBE_REQ, true), req).await?;
-        loop {
-            if ans.messages.len() >= imdrv::MAX_CHUNKS {
-                ans.error = Some("endless priming report".into());
-                break;
-            }
-            let (op, payload) = {
-                let rx = ex.recv().await?;
-                (rx.meta().proto_opcode, rx.payload().to_vec())
-            };
-            ans.messages.push((op, payload.clone()));
-            match op {
-                imdrv::OP_REPORT_DATA => match imdrv::decode_report(&payload) {
-                    Ok((items, _, _, _)) => {
-                        ans.items.extend(items);
-                        ex.send(MessageMeta::new(imdrv::PROTO_IM, imdrv::OP_STATUS, true), &imdrv::status_response(0)).await?;
-                    }
-                    Err(e) => {
-                        ans.error = Some(format!("undecodable report: {}", e));
-                        break;
-                    }
-                },
-                imdrv::OP_SUBSCRIBE_RESP => {
-                    ex.acknowledge().await?;
-                    break;
-                }
-                imdrv::OP_STATUS => {
-                    ans.status_response = Some(rs_matter::tlv::TLVElement::new(&payload).structure().ok().and_then(|s| s.find_ctx(0).ok()).and_then(|x| x.u16().ok()).unwrap_or(0xffff));
-                    ex.acknowledge().await?;
-                    break;
-                }
-                other => {
-                    ans.error = Some(format!("unexpected opcode {}", other));
-                    break;
-                }
-            }
-        }
-        Ok(())
-    }
-    .await;
-    if let Err(e) = r {
-        ans.error = Some(format!("{:?}", e.code()));
-    }
-    ans
 }
 
 // ------------------------------------------------------------------------------------ reference
